@@ -35,14 +35,14 @@ QUERY_TIMEOUT_MS = {"quick": 60000, "thorough": 240000}
 
 
 def bounds(tier):
-    return {"wrappers": "N in {1,2,3,4}, user module with and without own model/residual",
+    return {"wrappers": "N in {1,2,3,4} (thorough: up to 6), user module with and without own model/residual",
             "shipped models": list(specs.PARAMS), "points per relational obligation": 2,
             "outside": "depth beyond the tip radius; doubles; Clifford monotonicity"}
 
 
 def tasks(tier):
     ts = []
-    for n in (1, 2, 3, 4):
+    for n in ((1, 2, 3, 4) if tier == "quick" else (1, 2, 3, 4, 5, 6)):
         for own in (False, True):
             ts.append({"name": f"wrapper:N{n}:{'own' if own else 'default'}", "fn": "t_wrapper",
                        "args": {"n": n, "own": own},
